@@ -2283,6 +2283,8 @@ impl Kanata {
             // The rapid-event-delay pause after a tap-hold/chord/one-shot decision only counts
             // down in ticks; blocking now would apply what is left of it to the next input.
             && self.layout.b().oneshot.pause_input_processing_ticks == 0
+            // Same for the pause of one-shot-pause-processing.
+            && self.layout.b().oneshot.ticks_to_ignore_events == 0
             && self.layout.b().active_sequences.is_empty()
             && self.layout.b().tap_dance_eager.is_none()
             && self.layout.b().action_queue.is_empty()
